@@ -6,13 +6,16 @@
 EXTENDS FileOps, Json
 VARIABLES pm, c
 \* patterns by name; the binding holds the regular expressions and template files of the same names
-Pats == {"daily", "done", "any", "proj"}
-Paths == {"2024/20240305.zo", "x_done.zo", "2024/20240306_done.zo", "proj_alpha.zo", "plain.zo", "sub/new/deep.zo"}
+\* "tail" is written without a leading ^: a pattern still has to match from the START of the notes-directory-relative path
+\* (re.match), so it matches 2024/20240305.zo and not arch/2024/20240305.zo
+Pats == {"daily", "done", "any", "proj", "tail"}
+Paths == {"2024/20240305.zo", "x_done.zo", "2024/20240306_done.zo", "proj_alpha.zo", "plain.zo", "sub/new/deep.zo", "arch/2024/20240305.zo"}
 Matches(p, path) ==
   CASE p = "daily" -> path = "2024/20240305.zo"
     [] p = "done"  -> path \in {"x_done.zo", "2024/20240306_done.zo"}
     [] p = "any"   -> TRUE
     [] p = "proj"  -> path = "proj_alpha.zo"
+    [] p = "tail"  -> path = "2024/20240305.zo"
     [] OTHER -> FALSE
 \* renderings: the template's text with the variables captured from the path (date-like captures printed as dates).
 \* Whenever the caller passes `extra` the binding also passes name=scratch and y=1999: a caller's variable never replaces a
@@ -23,6 +26,7 @@ RenderWith(extra) == [p \in Pats \cup {"explicit"} |->
        [] p = "done"  -> "# Done log extra=" \o extra \o "\n\n"
        [] p = "any"   -> "# Any page extra=" \o extra \o "\n\n- any\n"
        [] p = "proj"  -> "# Project alpha extra=" \o extra \o "\n\n- proj alpha\n"
+       [] p = "tail"  -> "# Tail page extra=" \o extra \o "\n\n- tail\n"
        [] p = "explicit" -> "# Explicit extra=" \o extra \o "\n\n"]]
 Maps == { << >> } \cup { << a >> : a \in Pats } \cup { << a, b >> \in Pats \X Pats : a # b }
         \cup { << a, b, d >> \in Pats \X Pats \X Pats : a # b /\ b # d /\ a # d /\ a \in {"any", "done"} }
